@@ -184,6 +184,13 @@ def gen_messages(r, n, big=False):
     return out
 
 
+# regular-expression syntax a listing path can carry: unterminated quotes / groups / classes / repeats, escapes at the end,
+# flags, named groups, unicode classes, nested repeats, things that are valid alone but not inside a group or anchors
+REGEX_PAYLOADS = [b"\\Q", b"\\QAccount 1", b"\\Qa\\E\\Q", b"\\E", b"(", b")", b"(?:", b"(?i", b"(?i)", b"(?P<n>", b"(?P<n>a)", b"[", b"[a-", b"[[:alpha:]",
+                  b"[[:alpha:]]", b"\\", b"a\\", b"\\p{Greek", b"\\pN", b"\\C", b"a{2,1}", b"a{1001}", b"a{1000}", b"(a*)*", b"a**", b"a*+", b"|", b"a||b",
+                  b"^*", b"$^", b"(?s).*", b"\\z", b"\\A", b"\\b(", b".{0,999}{0,999}", b"(?-i)x", b"(?U)a+", b"\\x{110000}", b"\\x{41", b"\xff\\Q"]
+
+
 def corpus():
     """hand-written messages (always first)"""
     out = []
@@ -194,6 +201,10 @@ def corpus():
         for cl in ("client-test01", "client-test02"):
             out.append(("/v1.AccountManager/Generate", cl, msg(fld(1, LEN, b"Wallet 3/Single %d" % pi), fld(2, LEN, b"pass"), fld(3, VARINT, np_), fld(4, VARINT, th_)), "generate-dist-corner"))
     out.append(("/v1.AccountManager/Generate", "client-test01", msg(fld(1, LEN, b"Wallet 3/Single np"), fld(3, VARINT, 1), fld(4, VARINT, 1)), "generate-dist-corner"))
+    for rp in REGEX_PAYLOADS:
+        for pre in (b"Wallet 1/", b"Nope/", b""):
+            out.append(("/v1.Lister/ListAccounts", "client-test01" if pre != b"Nope/" else "client-test02", msg(fld(1, LEN, pre + rp)), "list-regex-syntax"))
+        out.append(("/v1.Lister/ListAccounts", "client-test03", msg(fld(1, LEN, b"Wallet 1/Account 1"), fld(1, LEN, b"Wallet 2/" + rp + b"Account")), "list-regex-syntax"))
     out.append(("/v1.AccountManager/Generate", "client-test01", msg(fld(1, LEN, b"Wallet 3/Huge2"), fld(2, LEN, b"pass"), fld(3, VARINT, 1 << 31), fld(4, VARINT, (1 << 30) + 1)), "generate-huge"))
     # short domains (Domain[0:4] on a short slice)
     for n in (1, 2, 3):
